@@ -28,6 +28,7 @@ type c11Req struct {
 	malformed           bool
 	expect              bool
 	special             string // "", "te" (TimeoutError), "hj" (hijack), "close"
+	mpSecret            string // non-empty: the body is a multipart/form-data form with the field secret=<this> (pre-parsed by the server)
 	conf                string // per-request RequestConfig asked through HeaderReceived: "rt=MS;wt=MS;mb=N" (X-Req-Conf header)
 	pauseMs             int    // the client waits this long before sending the request
 }
@@ -70,6 +71,9 @@ func (q c11Req) wire() []byte {
 	if q.form {
 		b.WriteString("Content-Type: application/x-www-form-urlencoded\r\n")
 	}
+	if q.mpSecret != "" {
+		b.WriteString("Content-Type: multipart/form-data; boundary=XbX\r\n")
+	}
 	if q.expect {
 		b.WriteString("Expect: 100-continue\r\n")
 	}
@@ -83,6 +87,7 @@ func (q c11Req) wire() []byte {
 
 type c11Obs struct {
 	method, uri, body, query, post, cookies, hdrs string
+	form                                          string // values of ctx.MultipartForm(), "" when the request has none
 	userValues                                    int
 	respDefault                                   string
 }
@@ -112,6 +117,11 @@ func decodeC11(a [][]byte) (cfg connCfg, conns [][]c11Req) {
 			q.conf = f[10]
 			fmt.Sscan(f[11], &q.pauseMs)
 		}
+		if len(f) > 12 && f[12] != "" {
+			q.mpSecret = f[12]
+			q.body = "--XbX\r\nContent-Disposition: form-data; name=\"secret\"\r\n\r\n" + f[12] + "\r\n--XbX--\r\n"
+			q.form = false
+		}
 		for _, h := range strings.Split(f[3], "\x1e") {
 			if k, v, ok := strings.Cut(h, "="); ok {
 				q.headers = append(q.headers, [2]string{k, v})
@@ -134,8 +144,8 @@ func decodeC11(a [][]byte) (cfg connCfg, conns [][]c11Req) {
 func init() {
 	Register(&Prop{
 		ID: "C11", NoShrink: true,
-		Rule: "histories of 1..3 connections x 1..4 requests served by one Server (shared ctx pool): structured requests (method, path, query args, custom headers, cookies, form/plain bodies), " +
-			"interleaved with malformed heads, rejected expectations (with and without a declared body), TimeoutError, hijacks, handler-set close, streamed bodies, per-request RequestConfig through HeaderReceived (own body limit, read and write deadlines, with later requests arriving after the deadline); the handler snapshots method/URI/headers/cookies/body/query+post args/user values/default response " +
+		Rule: "histories of 1..3 connections x 1..4 requests served by one Server (shared ctx pool): structured requests (method, path, query args, custom headers, cookies, form/plain/multipart bodies), " +
+			"interleaved with malformed heads, rejected expectations (with and without a declared body), TimeoutError, hijacks, handler-set close, streamed bodies, per-request RequestConfig through HeaderReceived (own body limit, read and write deadlines, with later requests arriving after the deadline); the handler snapshots method/URI/headers/cookies/body/query+post args/multipart form values/user values/default response " +
 			"and then dirties user values, response and request; non-trivial = at least two dispatches in the history; distinct = distinct input",
 		Parallel: true,
 		Build: func(kind string, a [][]byte) *Case {
@@ -161,9 +171,25 @@ func init() {
 					}
 				}
 				o.query, o.post, o.cookies, o.hdrs = sortedKV(qa), sortedKV(pa), sortedKV(ck), sortedKV(hd)
+				if mf, err := ctx.MultipartForm(); err == nil && mf != nil {
+					var fv [][2]string
+					for k, vs := range mf.Value {
+						for _, v := range vs {
+							fv = append(fv, [2]string{k, v})
+						}
+					}
+					o.form = sortedKV(fv)
+					o.body = "<multipart>" // Body() of a pre-parsed form is a re-marshalled copy: not compared
+				}
+				if v := ctx.FormValue("secret"); len(v) > 0 && o.form == "" {
+					o.form = "FormValue(secret)=" + string(v)
+				}
 				o.userValues = d.UserValues
 				o.respDefault = d.RespDefault
 				obs = append(obs, o)
+				if ctx.QueryArgs().Has("nd") {
+					return // this handler leaves the request and response as they are (resets that rely on the handler having touched them show here)
+				}
 				// dirty everything
 				ctx.SetUserValue("k1", "v1")
 				ctx.SetUserValueBytes([]byte("k2"), 2)
@@ -208,6 +234,10 @@ func init() {
 					e.post = sortedKV(pa)
 				}
 				e.hdrs = sortedKV(q.headers)
+				if q.mpSecret != "" {
+					e.form = "secret=" + q.mpSecret
+					e.body = "<multipart>"
+				}
 				return e
 			}
 			for _, conn := range conns {
@@ -317,7 +347,7 @@ func init() {
 			render := func(os []c11Obs) string {
 				var sb strings.Builder
 				for _, o := range os {
-					fmt.Fprintf(&sb, "[%s %s body=%q q=%s p=%s c=%s h=%s uv=%d resp=%s]", o.method, o.uri, o.body, o.query, o.post, o.cookies, o.hdrs, o.userValues, o.respDefault)
+					fmt.Fprintf(&sb, "[%s %s body=%q q=%s p=%s c=%s h=%s form=%s uv=%d resp=%s]", o.method, o.uri, o.body, o.query, o.post, o.cookies, o.hdrs, o.form, o.userValues, o.respDefault)
 				}
 				return sb.String()
 			}
@@ -440,6 +470,8 @@ func init() {
 							qs = append(qs, "uv=1")
 						case 3:
 							qs = append(qs, "sc=404", "body=gone")
+						case 4, 5, 6:
+							qs = append(qs, "nd=1")
 						}
 						malformed, expect := "0", "0"
 						if r.Chance(4) {
@@ -472,7 +504,11 @@ func init() {
 							}
 						}
 						// the path carries the position so that a dispatch can be attributed to its request
-						f := []string{method, fmt.Sprintf("/p%d", r.Intn(5)), strings.Join(qs, "&"), strings.Join(hs, "\x1e"), strings.Join(cks, "\x1e"), body, form, malformed, expect, special, conf, pause}
+						mp := ""
+						if (method == "POST" || method == "PUT") && !strings.Contains(cfg, "st=1") && !strings.HasPrefix(cfg, "cont=") && r.Chance(15) {
+							mp = fmt.Sprintf("s%d", r.Intn(1000)) // a pre-parsed multipart form: must not be visible to any later request
+						}
+						f := []string{method, fmt.Sprintf("/p%d", r.Intn(5)), strings.Join(qs, "&"), strings.Join(hs, "\x1e"), strings.Join(cks, "\x1e"), body, form, malformed, expect, special, conf, pause, mp}
 						args = append(args, B(strings.Join(f, "\x1f")))
 					}
 				}
